@@ -414,6 +414,10 @@ func init() {
 			runPeerEdge(t, rc)
 			return
 		}
+		if rc.Param("mode", "") == "tlsconc" {
+			runPeerEdgeConc(t, rc)
+			return
+		}
 		runDKGCallers(t, rc)
 	}
 }
